@@ -41,6 +41,10 @@ func (interp *Interpreter) importSrc(rPath, importPath string, skipTest bool) (s
 			if root, rerr := interp.rootFromSourceLocation(); rerr == nil {
 				rPath = root
 			}
+		} else if isPathRelative(rPath) {
+			// The importing package was itself imported through a relative path:
+			// rPath is relative to the main file, not to GOPATH/src.
+			rPath = interp.rootFromRelativeLocation(rPath)
 		}
 		if dir, rPath, err = interp.pkgDir(interp.context.GOPATH, rPath, importPath); err != nil {
 			// Try again, assuming a root dir at the source location.
@@ -114,6 +118,11 @@ func (interp *Interpreter) importSrc(rPath, importPath string, skipTest bool) (s
 		rootNodes = append(rootNodes, root)
 
 		subRPath := effectivePkg(rPath, importPath)
+		if isPathRelative(importPath) {
+			// The location of the package is only known relatively to the main
+			// file. The leading "./" tells it from a path relative to GOPATH/src.
+			subRPath = "./" + effectivePkg(filepath.Clean(rPath), importPath)
+		}
 		var list []*node
 		list, err = interp.gta(root, subRPath, importPath, pkgName)
 		if err != nil {
@@ -205,6 +214,20 @@ func (interp *Interpreter) rootFromSourceLocation() (string, error) {
 		return "", fmt.Errorf("package location %s not in GOPATH", pkgDir)
 	}
 	return root, nil
+}
+
+// rootFromRelativeLocation returns the path relative to $GOPATH/src of the
+// directory at rPath relative to the main file, or "" if it is not in GOPATH.
+func (interp *Interpreter) rootFromRelativeLocation(rPath string) string {
+	root, err := interp.rootFromSourceLocation()
+	if err != nil {
+		return ""
+	}
+	root = filepath.Join(root, rPath)
+	if root == ".." || strings.HasPrefix(root, ".."+string(filepath.Separator)) {
+		return ""
+	}
+	return root
 }
 
 // pkgDir returns the absolute path in filesystem for a package given its import path
